@@ -21,9 +21,14 @@ theorem src_isProbabilityRow : isProbabilityRow =
 theorem src_isProbabilityDense : isProbabilityDense =
     "for(size_trow=0;row<static_cast<size_t>(in.rows());++row)if(in.row(row).minCoeff()<0.0||checkDifferentSmall(in.row(row).sum(),1.0))returnfalse;returntrue;" := rfl
 
-/-- modelled by: isProbRowSp (isProbRowSp_iff, isProbRowSp_neg_bound) -/
-theorem src_isProbabilitySparse : isProbabilitySparse =
-    "for(size_trow=0;row<static_cast<size_t>(in.rows());++row)if(checkDifferentSmall(in.row(row).sum(),1.0)||checkDifferentSmall(in.row(row).cwiseAbs().sum(),1.0))returnfalse;returntrue;" := rfl
+/-- modelled by: isProbRowSpAs sparseSignTest — isProbRowSp as the code stands (isProbRowSp_iff, isProbRowSp_neg_bound: no sign test),
+    isProbRowSpSigned with fixes/C05-2-sparse-isprobability-sign.diff applied (isProbRowSpSigned_eq) -/
+theorem src_isProbabilitySparse :
+    (isProbabilitySparse =
+    "for(size_trow=0;row<static_cast<size_t>(in.rows());++row)if(checkDifferentSmall(in.row(row).sum(),1.0)||checkDifferentSmall(in.row(row).cwiseAbs().sum(),1.0))returnfalse;returntrue;" ∧ sparseSignTest = false)
+  ∨ (isProbabilitySparse =
+    "for(intk=0;k<in.outerSize();++k)for(SparseMatrix2D::InnerIteratorit(in,k);it;++it)if(it.value()<0.0)returnfalse;for(size_trow=0;row<static_cast<size_t>(in.rows());++row)if(checkDifferentSmall(in.row(row).sum(),1.0))returnfalse;returntrue;" ∧ sparseSignTest = true) := by
+  first | exact Or.inl ⟨rfl, rfl⟩ | exact Or.inr ⟨rfl, rfl⟩
 
 /-- modelled by: obsProbLoop / obsProbB (obsProbB_eq_probO) -/
 theorem src_sparseObsProbBelief : sparseObsProbBelief =
